@@ -844,7 +844,8 @@ static void DecodeSELECT(Word MayATN) {
     if (ChkArgCnt(2, 2)) {
         DAsmCode[0] = 0x40000000;
         OK          = True;
-        if (!as_strncasecmp(ArgStr[1].str.p_str, "ATN ", 4)) {
+        if (!as_strncasecmp(ArgStr[1].str.p_str, "ATN", 3)
+            && as_isspace(ArgStr[1].str.p_str[3])) {
             strmov(ArgStr[1].str.p_str, ArgStr[1].str.p_str + 4);
             ArgStr[1].Pos.StartCol += 4;
             ArgStr[1].Pos.Len -= 4;
@@ -858,7 +859,8 @@ static void DecodeSELECT(Word MayATN) {
         if (!OK) {
             WrError(ErrNum_InvAddrMode);
         } else {
-            if (!as_strncasecmp(ArgStr[1].str.p_str, "FROM ", 5)) {
+            if (!as_strncasecmp(ArgStr[1].str.p_str, "FROM", 4)
+                && as_isspace(ArgStr[1].str.p_str[4])) {
                 strmov(ArgStr[1].str.p_str, ArgStr[1].str.p_str + 5);
                 ArgStr[1].Pos.StartCol += 5;
                 ArgStr[1].Pos.Len -= 5;
